@@ -20,6 +20,46 @@ def lossy_scenario(r, it, tier, small_volume=True, modes=(0, 1, 2, 3), cfg=None,
     sim.meta = {"netA": vars(netA), "netB": vars(netB), "ticks": ticks, "dt": dt, "cfg": cfg}
     return sim
 
+def big_packet_scenario(r, it, modes=(3,)):
+    """A packet of 33..70 fragments (so that fragment ids 32 apart exist inside one packet): the frames carrying one or two chosen
+    fragments are lost on their first transmission while every other fragment - in particular the ones 32 and 64 ids away - arrives and
+    is acknowledged; then the network is fair. The per-fragment acknowledgement bookkeeping of the sender decides what is re-sent."""
+    cfg = pick_cfg(r); cfg["fw"] = 4096; cfg["pw"] = r.pick([16, 64, 4096]); cfg["bwA"] = cfg["bwB"] = 20_000_000
+    cfg["allocA"] = cfg["allocB"] = 1_000_000
+    sim = Sim(r, cfg, inter=it)
+    lat = r.pick([0, 1_000_000, 10_000_000])
+    nfr = r.range(33, 70)
+    ln = nfr * F - r.pick([0, 1, 7, 700, F - 1])
+    k = r.below(nfr)
+    lost = {k}
+    if r.chance(1, 3):
+        lost.add(r.below(nfr))
+    dropped = set()
+    def fate(sim, ep, idx, f):
+        if ep != "A" or f["kind"] != "D":
+            return None
+        hit = [d for d in f["dgs"] if d["last"] == nfr - 1 and d["frag"] in lost and (d["seq"], d["frag"]) not in dropped]
+        if hit:
+            for d in hit:
+                dropped.add((d["seq"], d["frag"]))
+            return []
+        return None
+    ok = Net(latency=lat)
+    def warm(sim, ep):
+        if ep == "A" and sim.tick < 100:               # slow start has to open so that the packet leaves within a few flushes
+            for _ in range(4):
+                sim.send("A", r.below(2), 1, F)
+    sim.run(130, 5_000_000, ok, ok, warm)
+    sim.fate_fn = fate
+    ch = r.below(3)
+    sim.send("A", ch, r.pick(list(modes)), ln)
+    sim.send("A", ch, 3, r.pick([4, 50, 1448]))
+    sim.run(r.range(80, 160), r.pick([5_000_000, 20_000_000, 50_000_000]), ok, ok, probe_every=1)
+    sim.fate_fn = None
+    sim.latency = lat
+    sim.meta = {"cfg": cfg, "fragments": nfr, "lost": sorted(lost)}
+    return sim
+
 def finish(sim, drain=True, max_ticks=700):
     ok = None
     if drain:
